@@ -3847,7 +3847,26 @@ def _check_dependents_are_predicates(
         )
 
         if not allow_reduction:
-            if isinstance(e, (ApplyConcatApply, TreeReduce, ShuffleReduce)):
+            from dask_expr._cumulative import (
+                CumulativeAggregations,
+                CumulativeFinalize,
+            )
+
+            # cumulative and window operations (and their lowered forms) are not
+            # row-wise either: their value for a row depends on which other
+            # rows are present
+            if isinstance(
+                e,
+                (
+                    ApplyConcatApply,
+                    TreeReduce,
+                    ShuffleReduce,
+                    CumulativeAggregations,
+                    CumulativeFinalize,
+                    MapOverlap,
+                    CreateOverlappingPartitions,
+                ),
+            ):
                 return False
 
         allowed_expressions.add(e._name)
